@@ -2,6 +2,7 @@
    model side of the correspondence lives here (in Gallina); the OCaml driver is generic. *)
 From Coq Require Import Strings.String.
 From ZipV Require Import Base.Bytes Base.Outcome Gen.GenLib Gen.TypesGen Model.Dos Extract.Obs.
+From ZipV Require Import Spec.PathSpec Model.Path.
 Open Scope N_scope.
 Open Scope string_scope.
 
@@ -31,6 +32,19 @@ Definition dispatch_dos (op : bytes) (args : list arg) : option obs :=
     | _ => None end
   else None.
 
+Definition comp_obs (c : comp) : obs :=
+  match c with RootDir => T "R" | CurDir => T "C" | ParentDir => T "P" | Normal n => OL [T "N"; OB n] end.
+
+Definition dispatch_path (op : bytes) (args : list arg) : option obs :=
+  if is_op op "path" then
+    match args with
+    | [AB n] => Some (OL [oopt OB (enclosed_name n); OB (mangled_name n); OL (map comp_obs (components n))])
+    | _ => None end
+  else None.
+
+Definition first_some (l : list (option obs)) : obs :=
+  match flat_map (fun o => match o with Some x => [x] | None => [] end) l with
+  | x :: _ => x | [] => T "BADOP" end.
+
 Definition dispatch (op : bytes) (args : list arg) : obs :=
-  match dispatch_dos op args with Some o => o | None =>
-  T "BADOP" end.
+  first_some [dispatch_dos op args; dispatch_path op args].
